@@ -1,6 +1,7 @@
 package props
 
 import (
+	"bytes"
 	"fmt"
 
 	"github.com/Breeze0806/gobinlog"
@@ -157,4 +158,69 @@ func compareTxs(got []*gobinlog.Transaction, exp []hist.ExpTx, labels bool) erro
 		return fmt.Errorf("%d transactions delivered, want %d (extra: %+v .. %+v)", len(got), len(exp), got[len(exp)].NowPosition, got[len(exp)].NextPosition)
 	}
 	return nil
+}
+
+// txEqual is reflect.DeepEqual for delivered transactions without its bookkeeping of visited pointers
+// (which costs hundreds of megabytes on a transaction of 66000 events): same positions, timestamp, and
+// the same events, rows and columns with the same nil-ness of every slice and pointer.
+func txEqual(a, b *gobinlog.Transaction) bool {
+	if a == nil || b == nil {
+		return a == b
+	}
+	if a.NowPosition != b.NowPosition || a.NextPosition != b.NextPosition || a.Timestamp != b.Timestamp {
+		return false
+	}
+	if (a.Events == nil) != (b.Events == nil) || len(a.Events) != len(b.Events) {
+		return false
+	}
+	for i := range a.Events {
+		if !eventEqual(a.Events[i], b.Events[i]) {
+			return false
+		}
+	}
+	return true
+}
+
+func eventEqual(a, b *gobinlog.StreamEvent) bool {
+	if a == nil || b == nil {
+		return a == b
+	}
+	if a.Type != b.Type || a.Table != b.Table || a.Timestamp != b.Timestamp || a.Query.SQL != b.Query.SQL || a.Query.Database != b.Query.Database {
+		return false
+	}
+	if (a.Query.Charset == nil) != (b.Query.Charset == nil) || (a.Query.Charset != nil && *a.Query.Charset != *b.Query.Charset) {
+		return false
+	}
+	return rowsEqual(a.RowValues, b.RowValues) && rowsEqual(a.RowIdentifies, b.RowIdentifies)
+}
+
+func rowsEqual(a, b []*gobinlog.RowData) bool {
+	if (a == nil) != (b == nil) || len(a) != len(b) {
+		return false
+	}
+	for i := range a {
+		if a[i] == nil || b[i] == nil {
+			if a[i] != b[i] {
+				return false
+			}
+			continue
+		}
+		ca, cb := a[i].Columns, b[i].Columns
+		if (ca == nil) != (cb == nil) || len(ca) != len(cb) {
+			return false
+		}
+		for k := range ca {
+			if !colEqual(ca[k], cb[k]) {
+				return false
+			}
+		}
+	}
+	return true
+}
+
+func colEqual(a, b *gobinlog.ColumnData) bool {
+	if a == nil || b == nil {
+		return a == b
+	}
+	return a.Filed == b.Filed && a.Type == b.Type && a.IsEmpty == b.IsEmpty && (a.Data == nil) == (b.Data == nil) && bytes.Equal(a.Data, b.Data)
 }
